@@ -74,11 +74,11 @@ Print Assumptions C01_remap_vertex_places.
 
 (* the offsets of _compute_edge_offsets/_compute_vertex_offsets address, inside the arrays of _vectorize_points /
    _vectorize_weights, exactly the block produced by the remap named by the local indices ([proj] = test or trial
-   points); block sizes 6n^4 / 5n^4 / 2n^4, table [[-1,0,4],[1,-1,2],[5,3,-1]]; offsets fit into uint32 *)
-Theorem C01_offsets_select_remap : forall (order : Z) rc re rv (proj : qpoint -> Q * Q),
+   points, [wp] any per-point weight); block sizes 6n^4 / 5n^4 / 2n^4, table [[-1,0,4],[1,-1,2],[5,3,-1]]; offsets fit into uint32 *)
+Theorem C01_offsets_select_remap : forall (order : Z) rc re rv (proj : qpoint -> Q * Q) (wp : qpoint -> Q),
   (1 <= order <= 30)%Z -> duffy order 0 = Some rc -> duffy order 1 = Some re -> duffy order 2 = Some rv ->
   let P := vectorize_points (map proj rc) (map proj re) (map proj rv) in
-  let W := vectorize_weights (map q_w rc) (map q_w re) (map q_w rv) in
+  let W := vectorize_weights (map wp rc) (map wp re) (map wp rv) in
   (npts order 0 = 6 * order ^ 4 /\ npts order 1 = 5 * order ^ 4 /\ npts order 2 = 2 * order ^ 4)%Z /\
   slice 0 (Z.to_nat (npts order 0)) P = map proj rc /\
   (forall i0 i1, i0 < 3 -> i1 < 3 -> i0 <> i1 ->
@@ -87,9 +87,9 @@ Theorem C01_offsets_select_remap : forall (order : Z) rc re rv (proj : qpoint ->
   (forall k, k < 3 ->
      (0 <= vertex_offset order k < 2 ^ 32)%Z /\
      slice (Z.to_nat (vertex_offset order k)) (Z.to_nat (npts order 2)) P = map (remap_vertex k) (map proj rv)) /\
-  slice 0 (Z.to_nat (npts order 0)) W = map q_w rc /\
-  slice (Z.to_nat (npts order 0)) (Z.to_nat (npts order 1)) W = map q_w re /\
-  slice (Z.to_nat (npts order 0 + npts order 1)) (Z.to_nat (npts order 2)) W = map q_w rv.
+  slice 0 (Z.to_nat (npts order 0)) W = map wp rc /\
+  slice (Z.to_nat (npts order 0)) (Z.to_nat (npts order 1)) W = map wp re /\
+  slice (Z.to_nat (npts order 0 + npts order 1)) (Z.to_nat (npts order 2)) W = map wp rv.
 Proof. exact offsets_select_remap. Qed.
 Print Assumptions C01_offsets_select_remap.
 
